@@ -2,7 +2,7 @@
    (pseudo-variable "$cells", Imp.v) holds one block per struct / pointer array; strings stay in the byte memory.
    The functions themselves: ImpFactsMd.v (metadata lists), ImpFactsSlice.v (value arrays, column slices),
    ImpFactsDestroy.v (sbdf_obj_destroy, sbdf_va_destroy), ImpFactsEq.v (sbdf_obj_eq). *)
-From Sbdf Require Import ImpCall Gen.Prog Gen.Consts Base BaseFacts ImpFacts ImpFacts7 ImpFactsFrame ImpFactsCmp ImpFactsHeap ImpFactsRead.
+From Sbdf Require Import ImpCall Gen.Prog Gen.Consts Base BaseFacts ImpBase.
 From Coq Require Import ZifyBool.
 Local Open Scope Z_scope.
 Ltac Zify.zify_post_hook ::= Z.div_mod_to_equations.
